@@ -15,7 +15,7 @@ import (
 // C01: several fresh instances of the real IndexedLachesis process one event set in different
 // parents-first orders.
 // input : salt seal nv (id w)* k (kind:seed)*k ; e id cr seq frame parents... ; ...
-// obs   : per instance  I <Process codes in that instance's order, one digit each> B... L epoch ldf
+// obs   : per instance  I <number of fed events whose Process failed> B... L epoch ldf
 //         (blocks as in C10: B epoch frame atropos sealed ncheaters cheaters...)
 func c01Gen(r *rand.Rand, n int, tier string, emit func(input ...string)) {
 	maxEv := 200
@@ -24,7 +24,32 @@ func c01Gen(r *rand.Rand, n int, tier string, emit func(input ...string)) {
 	}
 	for i := 0; i < n; i++ {
 		s, cfg, kind := refh.RandomScenario(r, maxEv, false)
+		small := tier == "thorough" && i%8 == 7
+		if small {
+			// small scope, exhaustively: every parents-first order of a DAG of <= 7 events
+			for len(s.VIDs) > 3 {
+				s.VIDs, s.Ws = s.VIDs[:len(s.VIDs)-1], s.Ws[:len(s.Ws)-1]
+			}
+			nv := len(s.VIDs)
+			cfg.Lag, cfg.Group, cfg.Cheat = cfg.Lag[:nv], cfg.Group[:nv], make([]bool, nv)
+			cfg.Lag[0] = 4
+			cfg.NEvents, cfg.MaxPar, cfg.PartUntil = 6+r.Intn(3), 1+r.Intn(2), 0
+			kind = "exhaustive"
+		}
 		refh.Generate(r, s, cfg)
+		if small {
+			all := refh.LinearExtensions(s, 5041)
+			vu.Stat("scn_" + kind)
+			vu.StatN("linear_extensions", len(all))
+			for from := 0; from < len(all) && from < 720; from += 60 {
+				extra := []string{}
+				for j := from; j < from+60 && j < len(all); j++ {
+					extra = append(extra, "7:"+strconv.Itoa(j))
+				}
+				emit(s.Tokens(append([]string{strconv.Itoa(len(extra))}, extra...))...)
+			}
+			continue
+		}
 		vu.Stat("scn_" + kind)
 		vu.Stat("nv_" + strconv.Itoa(len(s.VIDs)))
 		// three independently shuffled orders + two adversarial ones
@@ -57,7 +82,7 @@ func c01Run(in []string) []string {
 		if len(ks) > 1 {
 			seed, _ = strconv.ParseInt(ks[1], 10, 64)
 		}
-		vu.Stat("order_kind_" + strconv.Itoa(kind%7))
+		vu.Stat("order_kind_" + strconv.Itoa(kind%8))
 		order := refh.Order(s, kind, seed)
 		inst := refh.NewInst(s)
 		ids := map[int]*tdag.TestEvent{}
@@ -65,8 +90,14 @@ func c01Run(in []string) []string {
 		codes := make([]byte, 0, len(order))
 		for _, j := range order {
 			ev := s.Evs[j]
-			e := refh.EventOf(s, ev, ids, 1)
-			if e == nil || ev.Cr >= len(s.VIDs) {
+			if ev.Ep != inst.Epoch() {
+				// the epoch of this event is over (sealed by an earlier event of this order) or not
+				// yet open: the application does not feed it
+				vu.Stat("not_fed_after_seal")
+				continue
+			}
+			e := refh.EventOf(s, ev, ids, ev.Ep)
+			if e == nil {
 				codes = append(codes, '2')
 				continue
 			}
@@ -80,10 +111,13 @@ func c01Run(in []string) []string {
 				break
 			}
 		}
-		if len(codes) == 0 {
-			codes = append(codes, '-')
+		rej := 0
+		for _, c := range codes {
+			if c != '0' {
+				rej++
+			}
 		}
-		obs = append(obs, "I", string(codes))
+		obs = append(obs, "I", strconv.Itoa(rej))
 		obs = append(obs, inst.BlockTokens(name)...)
 		if i == 0 {
 			vu.StatN("blocks", len(inst.Blocks))
